@@ -157,8 +157,17 @@ def run(res, replay=None):
         n_ = len(c['ts'])
         for j in range(n_):
             want = r['pt'][(j + 1) % n_]
-            if not eq_val(r['vec2'][j], want, False, 1e-10):
+            if not eq_val(r['vec2'][j], want, c['entry'] == 'epochs', 1e-10):
                 res.violation(f"{c['entry']}: the same times asked again in another order on the same object: position {j} is not the value of its time",
                               {'case': c, 'second_call_times': c['ts'][1:] + c['ts'][:1], 'position': j, 'observed': r['vec2'][j], 'expected': want})
                 break
+    # epochs: a batch in DESCENDING order on an object whose last single lookup ended beyond every requested time
+    for c in cases:
+        r = impl[id(c)]
+        if 'error' in r or 'vec3' not in r:
+            continue
+        want = [r['pt'][c['ts'].index(t)] for t in sorted(c['ts'], reverse=True)]
+        if r['vec3'] != want:
+            res.violation('epochs: a batch in descending order asked of a demography after a later single lookup does not return each time\'s own epoch',
+                          {'case': c, 'batch_times': sorted(c['ts'], reverse=True), 'observed': r['vec3'], 'expected': want})
     res.stream('vectorised', cases=len(cases), **{f'entry_{k}': v for k, v in dist.items()})
